@@ -37,6 +37,18 @@ def _name(node):
     raise Unrecognised('not a field term: ' + ast.dump(node)[:80])
 
 
+def _is_cast_of(node, name):
+    """`name`, `name.astype(...)`, `np.asarray(name)` and compositions: the same numbers in another integer type"""
+    if isinstance(node, ast.Name):
+        return node.id == name
+    if isinstance(node, ast.Call) and isinstance(node.func, ast.Attribute):
+        if node.func.attr == 'astype':
+            return _is_cast_of(node.func.value, name)
+        if node.func.attr in ('asarray', 'asanyarray', 'array') and node.args:
+            return _is_cast_of(node.args[0], name)
+    return False
+
+
 def _or_terms(node):
     if isinstance(node, ast.BinOp) and isinstance(node.op, ast.BitOr):
         return _or_terms(node.left) + _or_terms(node.right)
@@ -123,6 +135,54 @@ def unpack_fields(fn):
     return out
 
 
+def interpreter_tables():
+    """What the RUNNING interpreter's int() and re's \\d accept, code point by code point (surrogates excluded: they cannot be
+    written in a str literal that is valid UTF-8): ([zero code point of every decimal-digit block], [(first, last) of every
+    white-space range int() skips at both ends], sys.get_int_max_str_digits()).  Raises Unrecognised when the interpreter
+    does not have the structure the model's tables assume (blocks of ten consecutive digits 0..9, `\\d` == what int() takes,
+    the same white space at both ends)."""
+    import re
+    import sys
+    digs, lead, trail, red = {}, [], [], []
+    rx = re.compile(r'\d')
+    for c in range(0x110000):
+        if 0xD800 <= c <= 0xDFFF:
+            continue
+        ch = chr(c)
+        try:
+            digs[c] = int(ch)
+        except ValueError:
+            pass
+        if rx.fullmatch(ch):
+            red.append(c)
+        if c in digs or ch in '+-':
+            continue
+        try:
+            int(ch + '7')
+            lead.append(c)
+        except ValueError:
+            pass
+        try:
+            int('7' + ch)
+            trail.append(c)
+        except ValueError:
+            pass
+    if sorted(digs) != red:
+        raise Unrecognised('re \\d and int() disagree on the decimal digits')
+    if lead != trail:
+        raise Unrecognised('int() skips different white space in front and behind')
+    zeros = [c for c in sorted(digs) if digs[c] == 0]
+    if len(digs) != 10 * len(zeros) or any(digs.get(z + k) != k for z in zeros for k in range(10)):
+        raise Unrecognised('decimal digits are not blocks of ten consecutive code points')
+    ranges = []
+    for x in lead:
+        if ranges and ranges[-1][1] == x - 1:
+            ranges[-1][1] = x
+        else:
+            ranges.append([x, x])
+    return zeros, [tuple(r) for r in ranges], sys.get_int_max_str_digits()
+
+
 def _lean_list(rows):
     def one(r):
         return '(' + ', '.join(('"%s"' % x) if isinstance(x, str) else ('(%d : Int)' % x if False else str(x)) for x in r) + ')'
@@ -141,10 +201,11 @@ def generate(repo, outdir):
     spec_rg = range_checks(fs)
     uo = unpack_fields(_func(photo, 'unwrap_objid'))
     us = unpack_fields(_func(sdss, 'unwrap_specobjid'))
+    ab_rg = range_checks(_func(sdss, 'sdss_astrombad'))
     mjd_offset = None
     for n in ast.walk(fs):
         if isinstance(n, ast.Assign) and isinstance(n.targets[0], ast.Name) and n.targets[0].id == 'mjd' \
-                and isinstance(n.value, ast.BinOp) and isinstance(n.value.op, ast.Sub) and isinstance(n.value.left, ast.Name):
+                and isinstance(n.value, ast.BinOp) and isinstance(n.value.op, ast.Sub) and _is_cast_of(n.value.left, 'mjd'):
             mjd_offset = _const(n.value.right)
     if mjd_offset is None:
         raise Unrecognised('MJD offset `mjd = mjd - 50000` not found')
@@ -154,11 +215,13 @@ def generate(repo, outdir):
               'spec_sh': ['plate', 'fiber', 'mjd', 'run2d', 'line', 'index'],
               'spec_rg': ['plate', 'fiber', 'mjd', 'run2d', 'line', 'index'],
               'uo': ['skyversion', 'rerun', 'run', 'camcol', 'firstfield', 'frame', 'id'],
-              'us': ['plate', 'fiber', 'mjd', 'run2d', 'line']}
-    got = {'obj_sh': obj_sh, 'obj_rg': obj_rg, 'spec_sh': spec_sh, 'spec_rg': spec_rg, 'uo': uo, 'us': us}
+              'us': ['plate', 'fiber', 'mjd', 'run2d', 'line'],
+              'ab_rg': ['run', 'camcol', 'field']}
+    got = {'obj_sh': obj_sh, 'obj_rg': obj_rg, 'spec_sh': spec_sh, 'spec_rg': spec_rg, 'uo': uo, 'us': us, 'ab_rg': ab_rg}
     for k, names in expect.items():
         if [r[0] for r in got[k]] != names:
             raise Unrecognised('%s: fields %s instead of %s' % (k, [r[0] for r in got[k]], names))
+    zeros, spaces, maxdig = interpreter_tables()
     src = '''/- GENERATED on every run by harness/xlate/c06_consts.py from the current pydl source. Do not edit. -/
 import PydlVerif.Model.Ids
 namespace PydlVerif.Gen.C06
@@ -171,15 +234,23 @@ theorem spec_ranges : (%s : List (String × Int × Int)) = specRangeTable := by 
 theorem objid_unpack : (%s : List (String × Nat × Nat × Nat)) = objUnpackTable := by decide
 theorem spec_unpack : (%s : List (String × Nat × Nat × Nat)) = specUnpackTable := by decide
 theorem mjd_offset : (%d : Int) = mjdOffset := by decide
+/- the running interpreter: decimal digits of int() and of re's \\d, white space int() strips, digit limit of int() -/
+theorem nd_zeros : (%s : List Nat) = ndZeros := by decide
+theorem py_spaces : (%s : List (Nat × Nat)) = pySpaces := by decide
+theorem py_max_digits : (%d : Nat) = pyMaxDigits := by decide
+/- the other function of the package that range-checks objID fields -/
+theorem astrombad_ranges : (%s : List (String × Int × Int)) = astrombadRangeTable := by decide
 
 end PydlVerif.Gen.C06
-''' % (_lean_list(obj_sh), _lean_list(obj_rg), _lean_list(spec_sh), _lean_list(spec_rg), _lean_list(uo), _lean_list(us), mjd_offset)
+''' % (_lean_list(obj_sh), _lean_list(obj_rg), _lean_list(spec_sh), _lean_list(spec_rg), _lean_list(uo), _lean_list(us), mjd_offset,
+       str(zeros), _lean_list(spaces), maxdig, _lean_list(ab_rg))
     out = Path(outdir) / 'C06Consts.lean'
     out.parent.mkdir(parents=True, exist_ok=True)
     if not out.exists() or out.read_text() != src:
         out.write_text(src)
     return out, ['PydlVerif.Gen.C06.' + t for t in ('objid_shifts', 'objid_ranges', 'spec_shifts', 'spec_ranges',
-                                                    'objid_unpack', 'spec_unpack', 'mjd_offset')]
+                                                    'objid_unpack', 'spec_unpack', 'mjd_offset',
+                                                    'nd_zeros', 'py_spaces', 'py_max_digits', 'astrombad_ranges')]
 
 
 if __name__ == '__main__':
